@@ -558,6 +558,10 @@ func (d *Document) AutoGenerateTOC(config *TOCConfig) error {
 		config = DefaultTOCConfig()
 	}
 
+	// 收集文档中的所有标题并为它们添加书签。必须先于查找目录位置：
+	// 添加书签会在标题前后插入元素，之前算出的下标就不再指向原来的位置
+	entries := d.collectHeadingsAndAddBookmarks(config.MaxLevel)
+
 	// 查找现有目录位置
 	tocStart := d.findTOCStart()
 	var insertIndex int
@@ -570,9 +574,6 @@ func (d *Document) AutoGenerateTOC(config *TOCConfig) error {
 		// 如果没有目录，在文档开头插入
 		insertIndex = 0
 	}
-
-	// 收集文档中的所有标题并为它们添加书签
-	entries := d.collectHeadingsAndAddBookmarks(config.MaxLevel)
 
 	if len(entries) == 0 {
 		return fmt.Errorf("文档中未找到标题（样式ID为2-10的段落）")
